@@ -232,6 +232,7 @@ def dispatch_wakes_one(L, rep, tier, seed):
         return
     rep.functions.update(enc0.encoded)
     qs = [(a, b, list(c) + pins) for (a, b, c) in pool_queries(enc, 'kf_enqueue_without_idle_waiter', ('at-most-one-idle', 'witness'))]
-    res = bmc.solve_many(enc, qs, timeout_ms=200000, seed=seed, jobs=2)
+    res = bmc.solve_many(enc, qs, timeout_ms=200000, seed=seed, jobs=2, extract=lambda e, m: e.replay_info(m))
     rep.bounds[name] = {'dispatches': n, 'K_steps_after_startup': K}
-    report_results(rep, 'C20', name, res, {}, [name, n, ndyn, K])
+    report_results(rep, 'C20', name, res, {}, [name, n, ndyn, K],
+                   replayer=lambda v, info: c08.replay_pool(L, v, rep, info, enc0.startup_ops, n))
